@@ -204,6 +204,106 @@ func faultVariants(base PScn, yield func(*faultCase)) {
 
 // ---------------------------------------------------------------- C05: alone = together
 
+// zooCase (C05): a run over packages of two modules — the main one and `zoo`, a module with a dot-less path reached
+// through a replace directive — against a run on zoo/p alone.  What zoo/p's generator renders refers to a standard
+// library package and to zoo/dep: how those imports are grouped depends on the module path and go version the
+// formatter is told, which are those of zoo/p's own module whatever else the run generates.
+type zooCase struct {
+	S        PScn `json:"scenario"`
+	together *POut
+	alone    *POut
+}
+
+const zooFile = "zoo/p/" + pipeBase + ".rec.go"
+
+func (c *zooCase) ensure() {
+	if c.together != nil {
+		return
+	}
+	a, b := cloneScn(c.S), cloneScn(c.S)
+	a.Zoo, b.Zoo = 1, 2
+	outs := runScenarios([]*PScn{&a, &b}, 2)
+	c.together, c.alone = outs[0], outs[1]
+}
+func (c *zooCase) Line() string { return "" }
+func (c *zooCase) Run() string {
+	c.ensure()
+	return "together=" + c.together.Result + " alone=" + c.alone.Result + " file=" + hx(c.together.Texts[zooFile])
+}
+func (c *zooCase) Oracle(out string) string {
+	c.ensure()
+	if c.together.Result != "ok" || c.alone.Result != "ok" {
+		if c.together.Result != c.alone.Result && c.alone.Result == "ok" {
+			return "zoo/p generates alone but the run together with the main module's packages ends with " + c.together.Result + " " + c.together.ErrText
+		}
+		return ""
+	}
+	if c.alone.Texts[zooFile] == "" {
+		return "the run on zoo/p alone wrote no " + zooFile
+	}
+	if c.together.Texts[zooFile] != c.alone.Texts[zooFile] {
+		return fmt.Sprintf("%s differs between the run on zoo/p alone and the run together with packages of the main module:\n--- alone\n%s\n--- together\n%s", zooFile, c.alone.Texts[zooFile], c.together.Texts[zooFile])
+	}
+	return ""
+}
+func (c *zooCase) Shrinks() []Case {
+	var out []Case
+	if len(c.S.Pkgs) > 1 {
+		n := cloneScn(c.S)
+		n.Pkgs = n.Pkgs[:1]
+		n.Entry = []int{0}
+		out = append(out, &zooCase{S: n})
+	}
+	key := "rec@zoo/p@P"
+	for i := range c.S.Custom[key] {
+		n := cloneScn(c.S)
+		n.Custom = map[string][]PItem{key: append(append([]PItem{}, c.S.Custom[key][:i]...), c.S.Custom[key][i+1:]...)}
+		out = append(out, &zooCase{S: n})
+	}
+	return out
+}
+func (c *zooCase) Key() string {
+	var ks []string
+	for _, it := range c.S.Custom["rec@zoo/p@P"] {
+		ks = append(ks, it.Path)
+	}
+	return fmt.Sprintf("go %s/%s %d pkgs refs %s", c.S.GoVer, c.S.ZooGo, len(c.S.Pkgs), strings.Join(ks, ","))
+}
+func (c *zooCase) Classes() []string {
+	return []string{"main-go:" + c.S.GoVer, "zoo-go:" + c.S.ZooGo, fmt.Sprintf("main-packages:%d", len(c.S.Pkgs))}
+}
+func (c *zooCase) Nontrivial() bool { return true }
+func (c *zooCase) InDomain() bool   { return true }
+
+func genZoo(r *Rng, i int) Case {
+	s := PScn{Reacts: map[string]string{}, Custom: map[string][]PItem{}, Prev: "none", Gens: []PGen{{Name: "rec", CustomNew: r.Bool()}}}
+	s.GoVer = Pick(r, []string{"1.24", "1.21", "1.12", "1.18"})
+	s.ZooGo = Pick(r, []string{"1.24", "1.12", "1.22"})
+	if s.ZooGo > s.GoVer { // a module cannot require one written for a newer go than its own
+		s.GoVer = "1.24"
+	}
+	for k := 1 + r.Intn(2); k > 0; k-- {
+		p := PPkg{Dir: fmt.Sprintf("a%d", k), PkgTags: []PTag{{"gengo:rec", []string{""}}}, Types: []PType{{Name: "A", Kind: "n"}}}
+		s.Reacts["rec@"+pipeMod+"/"+p.Dir+"@A"] = "ov-"
+		s.Entry = append(s.Entry, len(s.Pkgs))
+		s.Pkgs = append(s.Pkgs, p)
+	}
+	key := "rec@zoo/p@P"
+	s.Reacts[key] = "ob-"
+	items := []PItem{{K: "ref", S: "var _ = @ref\n", Path: Pick(r, []string{"fmt", "strings", "os"}), Name: map[string]string{"fmt": "Sprint", "strings": "ToLower", "os": "Exit"}["fmt"]}}
+	items[0].Name = map[string]string{"fmt": "Sprint", "strings": "ToLower", "os": "Exit"}[items[0].Path]
+	items = append(items, PItem{K: "ref", S: "var _ = @ref\n", Path: "zoo/dep", Name: "F"})
+	if r.Bool() {
+		items = append(items, PItem{K: "block", S: "var Octal = 0644\n"}) // rewritten to 0o644 from go 1.13 on
+	}
+	for a := len(items) - 1; a > 0; a-- {
+		b := r.Intn(a + 1)
+		items[a], items[b] = items[b], items[a]
+	}
+	s.Custom[key] = items
+	return &zooCase{S: s}
+}
+
 type aloneCase struct {
 	pipeCase
 	alone map[int]*POut
@@ -1031,6 +1131,12 @@ func init() {
 			Gen:      genAloneImports,
 			BatchRun: aloneBatch, ShrinkBudget: 40, MaxShrinks: 4,
 			Rule: pipeRuleCommon + "as alone-together, with every generator rendering 1–3 references into a menu of 10 packages whose last path segments clash pairwise (x/codec·y/codec, a/v2·b/v2, core/v1·apps/v1, text/template·html/template, math/rand·crypto/rand): the local import names chosen for a package's file must be the same alone and together",
+		},
+		{
+			Name: "two-modules", Quick: 40, Thorough: 300, New: func() Case { return &zooCase{} },
+			Gen:          genZoo,
+			ShrinkBudget: 10, MaxShrinks: 3,
+			Rule: "one run over packages of two modules: 1–2 packages of the main module (example.com/m, go 1.12 / 1.18 / 1.21 / 1.24) and zoo/p of a module with the dot-less path `zoo` (its own go directive 1.12 / 1.22 / 1.24, a nested directory required and replaced by the main module), whose generator renders references to a standard library package and to zoo/dep, sometimes an old-style octal literal; against a run on zoo/p alone; oracle: zoo/p's generated file is the same bytes — import grouping and literal rewriting go by the module the package belongs to, whatever else the run generates",
 		},
 	}})
 	register(&Property{ID: "C04", Streams: []*Stream{
